@@ -433,6 +433,9 @@ func checkC18(tier string) *Report {
 		alpha = append(alpha, w0.OpUpdateParams(v), withSigner(w0.OpUpdateParams(v), w0.Mallory.String(), "mallory"), OpInitGenesisParams(v))
 	}
 	alpha = append(alpha, w0.OpGenesisRoundTrip())
+	// coins already on the orbiter account in the probed denomination (the sweep runs in the same hook as the size check)
+	// (idempotent, so that the reachable set stays finite: the account is topped up TO 5 units)
+	alpha = append(alpha, OpEnv("ensure-stray-5uusdc"))
 	if tier == "thorough" {
 		alpha = append(alpha, w0.OpUpdateParams(8192), w0.OpUpdateParams(30000), w0.OpUpdateParams(63), w0.OpUpdateParams(65))
 		alpha = append(alpha, w0.OpPauseProtocol("PROTOCOL_CCTP"), w0.OpUnpauseProtocol("PROTOCOL_CCTP"), w0.OpPauseAction("ACTION_FEE"), w0.OpUnpauseAction("ACTION_FEE"))
